@@ -3,7 +3,7 @@
 import json, os
 V = os.path.dirname(os.path.abspath(__file__))
 
-TRUST = ("Trusted: rustc/cargo as installed, catch_unwind, the harness's Vec-based reference model and element ledger, "
+TRUST = ("Runs in two element configurations where applicable (tracked element with Drop; `plain` element without drop glue). Trusted: rustc/cargo as installed, catch_unwind, the harness's Vec-based reference model and element ledger, "
          "the calibration of the slot array (self-checked). Small-scope hypothesis beyond the listed capacities.")
 
 CHECKS = {
